@@ -32,7 +32,9 @@ T_OUT = [(r'basic_ostream<char|^std::ostream$|basic_ios<char', 'struct nv_ostrea
 
 # ------------------------------------------------------------------------------------------------ call maps (reader)
 # functions returning std::istream& print as functions returning a pointer: a call denotes the object -> (*f(...))
-C_IN = [(r'^read\|std::istream &\(std::istream &, unsigned int &\)', '(*read_u32({&0}, {&1}))'),
+# `tdims dims;` is a default-initialised std::array: indeterminate values, not zeros
+C_IN = [(r'^ctor\|.*(tdims|std::array<long, \d+>)\|', '@nondet'),
+        (r'^read\|std::istream &\(std::istream &, unsigned int &\)', '(*read_u32({&0}, {&1}))'),
         (r'^read\|std::istream &\(std::istream &, int &\)', '(*read_i32({&0}, {&1}))'),
         (r'^read\|std::istream &\(std::istream &, unsigned long &\)', '(*read_u64({&0}, {&1}))'),
         (r'^read\|std::istream &\(std::istream &, char &\)', '(*read_char({&0}, {&1}))'),
